@@ -7,7 +7,8 @@
      C06.c_header : the C header (read back the way a compiler would: declarations + initialiser list) declares the geometry,
                     the count and the rate of the structure and an array that is exactly the hex form
    A trace is [id, kind, m, k, w, est, rate4, mode, bs, ms, cap, fb, qmax, keys, ev]; an event is
-   [op, k (key index), a (amount / force flag), bytes, hex, ans, hdr]  (hdr.on = 0: no header taken at this step).  Every trace gets a verdict.           *)
+   [op, k (key index), a (amount / force flag), bytes, hex, ans, hdr, ch]  (hdr.on = 0: no header taken at this step; ch: the random draws a
+   cuckoo insertion consumed).  Every trace gets a verdict.           *)
 EXTENDS Layout, TLC, Json
 
 Traces == JsonDeserialize("traces.json")
@@ -54,6 +55,25 @@ InBits(bits, ps) == \A i \in 1..Len(ps) : bits[ps[i] + 1] = 1
 InSubs(subs, ps) == \E i \in 1..Len(subs) : InBits(subs[i].bits, ps)
 
 Fp4(f) == ToLimbs(f, 4)
+(* evictions: the recorded draws (ch: first the side, then one slot per swap) resolve the library's random choices, so the reference
+   writer follows the kick chain: the incoming element replaces the victim in the drawn slot, the victim moves to its other bucket
+   (fingerprint mod capacity / hash of the fingerprint's decimal digits mod capacity) or becomes the next incoming element *)
+ElFp(e) == IF Len(e) = 2 THEN e[1] ELSE e                      \* a counting bin is <<fingerprint limbs, count>>
+FpVal(lm) == lm[1] + 256 * lm[2] + 65536 * lm[3]                    \* fingerprints of at most 3 bytes
+RECURSIVE KickSeq(_, _, _, _, _, _, _)
+KickSeq(b, idx, e, ch, j, cap, bs) ==
+  IF j > Len(ch) \/ ch[j] + 1 > Len(b[idx]) THEN b            \* total: draws the model cannot follow leave the table (the bytes then differ)
+  ELSE LET slot == ch[j] + 1
+           victim == b[idx][slot]
+           b2 == [b EXCEPT ![idx][slot] = e]
+           vf == FpVal(ElFp(victim))
+           i1 == (vf % cap) + 1
+           i2 == ModSmall(Fnv64s(DecDigits(vf), 0), cap) + 1
+           nidx == IF idx = i1 THEN i2 ELSE i1
+       IN IF Len(b2[nidx]) < bs THEN [b2 EXCEPT ![nidx] = Append(@, victim)]
+          ELSE KickSeq(b2, nidx, victim, ch, j + 1, cap, bs)
+Kicked(b, i1, i2, e, ch, cap, bs) ==
+  IF Len(ch) < 2 THEN b ELSE KickSeq(b, IF ch[1] = 0 THEN i1 ELSE i2, e, ch, 2, cap, bs)
 HasFp(b, f) == \E i \in 1..Len(b) : (IF Len(b[i]) = 2 THEN b[i][1] ELSE b[i]) = Fp4(f)
 
 Apply(s, e) ==
@@ -91,7 +111,8 @@ Apply(s, e) ==
           CASE e.op = "add" ->
                  IF HasFp(s.buckets[i1], f) \/ HasFp(s.buckets[i2], f) THEN s
                  ELSE IF Len(s.buckets[i1]) < tr.bs THEN [s EXCEPT !.buckets[i1] = Append(@, Fp4(f))]
-                 ELSE [s EXCEPT !.buckets[i2] = Append(@, Fp4(f))]
+                 ELSE IF Len(s.buckets[i2]) < tr.bs THEN [s EXCEPT !.buckets[i2] = Append(@, Fp4(f))]
+                 ELSE [s EXCEPT !.buckets = Kicked(@, i1, i2, Fp4(f), e.ch, tr.cap, tr.bs)]
             [] OTHER ->
                  IF HasFp(s.buckets[i1], f) THEN [s EXCEPT !.buckets[i1] = SelectSeq(@, LAMBDA x : x # Fp4(f))]
                  ELSE [s EXCEPT !.buckets[i2] = SelectSeq(@, LAMBDA x : x # Fp4(f))])
@@ -101,7 +122,8 @@ Apply(s, e) ==
           CASE e.op = "add" ->
                  IF ib > 0 THEN [s EXCEPT !.buckets[ib] = [jj \in 1..Len(@) |-> IF @[jj][1] = Fp4(f) THEN <<@[jj][1], @[jj][2] + 1>> ELSE @[jj]]]
                  ELSE IF Len(s.buckets[i1]) < tr.bs THEN [s EXCEPT !.buckets[i1] = Append(@, <<Fp4(f), 1>>)]
-                 ELSE [s EXCEPT !.buckets[i2] = Append(@, <<Fp4(f), 1>>)]
+                 ELSE IF Len(s.buckets[i2]) < tr.bs THEN [s EXCEPT !.buckets[i2] = Append(@, <<Fp4(f), 1>>)]
+                 ELSE [s EXCEPT !.buckets = Kicked(@, i1, i2, <<Fp4(f), 1>>, e.ch, tr.cap, tr.bs)]
             [] OTHER ->
                  IF ib = 0 THEN s
                  ELSE [s EXCEPT !.buckets[ib] = SelectSeq([jj \in 1..Len(@) |-> IF @[jj][1] = Fp4(f) THEN <<@[jj][1], @[jj][2] - 1>> ELSE @[jj]],
